@@ -5,7 +5,15 @@ use std::io::{self, BufRead, Write};
 use std::panic::{catch_unwind, AssertUnwindSafe};
 
 mod cal;
+mod curve;
 mod dates;
+mod dual;
+mod fx;
+mod json;
+mod linalg;
+mod named;
+mod numenc;
+mod spline;
 
 pub type Ints = Vec<i128>;
 
@@ -62,6 +70,13 @@ fn main() {
         let res: Ints = match catch_unwind(AssertUnwindSafe(|| match domain {
             "dates" => dates::run(&op, &a),
             "cal" => cal::run(&op, &a),
+            "dual" => dual::run(&op, &a),
+            "fx" => fx::run(&op, &a),
+            "curve" => curve::run(&op, &a),
+            "linalg" => linalg::run(&op, &a),
+            "spline" => spline::run(&op, &a),
+            "json" => json::run(&op, &a),
+            "named" => named::run(&op, &a),
             _ => panic!("unknown domain"),
         })) {
             Ok(v) => v,
